@@ -54,7 +54,7 @@ fn interesting_f32(rng: &mut Rng) -> f32 {
 }
 
 fn gen_mesh(rng: &mut Rng, big: bool) -> GenMesh {
-    let nv = if big { 50 + rng.below(200) } else { rng.below(9) } as usize;
+    let nv = if big { 50 + rng.below(700) } else { rng.below(9) } as usize; // big: crosses 255 vertices
     let nf = if nv == 0 { 0 } else if big { rng.below(300) } else { rng.below(8) } as usize;
     let verts = (0..nv)
         .map(|_| [interesting_f32(rng), interesting_f32(rng), interesting_f32(rng)])
